@@ -208,6 +208,9 @@ type Config struct {
 	// Extra runs after the exploration in the parent (e.g. sequential sub-checks); it
 	// may add to the coverage and report violations.
 	Extra func(tier string, rep *evidence.Reporter, cov *evidence.Coverage)
+	// ExtraReplay replays a violation reported by Extra (scenario name, choice list);
+	// it returns the exit code or -1 if the scenario is not one of Extra's.
+	ExtraReplay func(scenario string, choices []int, path string) int
 	// HistScopes are engine-B searches (operation histories) run after the schedules.
 	HistScopes []*hist.Scope
 }
@@ -597,6 +600,11 @@ func replayFile(cfg *Config, path string) int {
 		}
 		fmt.Println("no violation on replay")
 		return 0
+	}
+	if cfg.ExtraReplay != nil {
+		if rc := cfg.ExtraReplay(v.Scenario, v.Replay, path); rc >= 0 {
+			return rc
+		}
 	}
 	fmt.Fprintf(os.Stderr, "unknown scenario %q\n", v.Scenario)
 	return 2
